@@ -188,6 +188,7 @@ def judgeLine (line : String) : String :=
             | none => s!"SPEC {cls} a-link-is-missing-from-the-network"
             | some sn =>
               if !sn.endsOk then s!"SPEC {cls} link-end-node-not-at-link-end-point" else
+              if !sn.identOk then s!"SPEC {cls} link-ends-are-PointEquals-but-do-not-share-a-node(or-share-one-without-being-equal)" else
               -- Spec verdicts on the implementation's answers
               let sv := (ms.zip rs).zipIdx.findSome? fun (((a, b, m, _), r), i) =>
                 match r with
@@ -207,7 +208,7 @@ def judgeLine (line : String) : String :=
                     | none =>
                       -- a query point equidistant from several nodes: the R-tree may pick any of them
                       let snm := sn.atMoment m
-                      if (snm.nearest a).length != 1 || (snm.nearest b).length != 1 then (none, false) else
+                      if (snm.nearest a c.exact).length != 1 || (snm.nearest b c.exact).length != 1 then (none, false) else
                       match mnet with
                       | none => (some s!"q{i}:model-has-no-network-at-this-moment", false)
                       | some net =>
@@ -215,7 +216,10 @@ def judgeLine (line : String) : String :=
                       | .ok m, .ok ans _ =>
                         let cm := match c.opt with | .distance => m.distance | .time => m.time
                         let ci := match c.opt with | .distance => ans.distance | .time => ans.time
-                        if !closeTo c.exact cm ci then (some s!"q{i}:model-cost-differs(model:{m.links}:{cm}|impl:{ans.links}:{ci}|s={m.startNode},t={m.endNode})", false)
+                        -- with identification gaps both A* runs are only minimal up to the gap budget (known finding) and
+                        -- may break the near-tie differently
+                        if !closeTo c.exact cm ci && rabs (cm - ci) ≤ snm.gapBudget c.opt then (none, false)
+                        else if !closeTo c.exact cm ci then (some s!"q{i}:model-cost-differs(model:{m.links}:{cm}|impl:{ans.links}:{ci}|s={m.startNode},t={m.endNode})", false)
                         else if m.links.isEmpty != ans.links.isEmpty then (some s!"q{i}:emptiness-differs", false)
                         else (none, acc.2 && m.links == ans.links)
                       | .error f, _ => (some s!"q{i}:model-faults-{faultName f}", false)
